@@ -10,6 +10,8 @@ package main
 import (
 	"go/ast"
 	"go/token"
+	"regexp"
+	"strconv"
 	"strings"
 )
 
@@ -40,10 +42,39 @@ func genC06() {
 	fset, f := parseFile("syncer/input.go")
 	sm := c06Func(f, "RedisInput", "syncMeta")
 	var ifs, psyncs []string
+	// locals introduced by `a, b := ri.channel.<Call>(…)` are printed as <Call>.0, <Call>.1 in the conditions, so that
+	// renaming them is not a tie failure (what they ARE - which result of which channel call - is what the model transcribes)
+	canon := map[string]string{}
+	ast.Inspect(sm.Body, func(n ast.Node) bool {
+		as, ok := n.(*ast.AssignStmt)
+		if !ok || as.Tok != token.DEFINE || len(as.Rhs) != 1 {
+			return true
+		}
+		call, ok := as.Rhs[0].(*ast.CallExpr)
+		if !ok {
+			return true
+		}
+		sel, ok := call.Fun.(*ast.SelectorExpr)
+		if !ok || !c12IsSel(sel.X, "ri", "channel") {
+			return true
+		}
+		for i, l := range as.Lhs {
+			if id, ok := l.(*ast.Ident); ok && id.Name != "_" {
+				canon[id.Name] = sel.Sel.Name + "." + strconv.Itoa(i)
+			}
+		}
+		return true
+	})
+	renameLocals := func(c string) string {
+		for name, to := range canon {
+			c = regexp.MustCompile(`\b`+regexp.QuoteMeta(name)+`\b`).ReplaceAllString(c, to)
+		}
+		return c
+	}
 	ast.Inspect(sm.Body, func(n ast.Node) bool {
 		switch x := n.(type) {
 		case *ast.IfStmt:
-			c := c12Render(fset, x.Cond)
+			c := renameLocals(c12Render(fset, x.Cond))
 			if c != "err != nil" {
 				ifs = append(ifs, c)
 			}
@@ -114,6 +145,16 @@ func genC06() {
 		return true
 	})
 	facts["c06_sendpsync_offset"] = offs
+	// the statements that decide the numbers are regenerated (c06psync.go -> Gen/C06Psync.lean); what stays a
+	// textual fact is the wire format of the request
+	var wire []string
+	for _, o := range offs {
+		if strings.HasPrefix(o, "sr.cli.SendAndFlush(") {
+			wire = append(wire, o)
+		}
+	}
+	facts["c06_sendpsync_wire"] = wire
+	defer genC06Psync(sp) // last: a SendPSync it cannot read must not hide the other facts of this generator
 
 	// the capabilities advertised before PSYNC (`capa eof` would make a diskless master answer
 	// `$EOF:<40 bytes>`, which waitRdbDump refuses)
